@@ -32,8 +32,9 @@ var defaultIV = []byte{0xA6, 0xA6, 0xA6, 0xA6, 0xA6, 0xA6, 0xA6, 0xA6}
 
 // Wrap encrypts the provided key data (cek) with the given AES cipher (and corresponding key), using the AES Key Wrap algorithm (RFC-3394)
 func Wrap(block cipher.Block, cek []byte) ([]byte, error) {
-	if len(cek)%8 != 0 {
-		return nil, errors.New("cek must be in 8-byte blocks")
+	// RFC-3394 defines the key wrap for n >= 2 blocks of 64 bits
+	if len(cek)%8 != 0 || len(cek) < 16 {
+		return nil, errors.New("cek must be in 8-byte blocks and at least 16 bytes long")
 	}
 
 	// Initialize variables
